@@ -497,7 +497,7 @@ fn gen_packet(r: &mut Rng, valid_hdr: bool) -> Vec<u8> {
             (None, _) => r.pick(&[16usize, 17, 40, 200, 244]),
         };
         let cc = if rq { None } else { Some(if r.chance(2, 3) { 0 } else if r.chance(3, 4) { 1 + r.below(5) as u8 } else { r.pick(&[6u8, 7, 0x80, 0xFF]) }) };
-        let mut data = r.bytes(dl);
+        let mut data = if r.chance(1, 2) { r.cbytes(dl) } else { r.bytes(dl) };
         if rq && cmd == 1 && !data.is_empty() && r.chance(3, 4) { data[0] = r.pick(&[0u8, 1, 3]); }
         if rq && cmd == 6 && !data.is_empty() && r.chance(3, 4) { data[0] = r.below(4) as u8; }
         ctl_body(rq, d, rs, inst, cmd, cc, &data)
@@ -568,7 +568,7 @@ fn control_grid(full: bool, r: &mut Rng, f: &mut dyn FnMut(&str, Vec<u8>)) {
                     for bad_pec in [false, true] {
                         if !full && r.below(3) != 0 && !(dl == fixed.unwrap_or(0)) { continue; }
                         let inst = if r.chance(1, 2) { 0 } else { r.below(32) as u8 };
-                        let mut data = r.bytes(dl);
+                        let mut data = if r.chance(1, 2) { r.cbytes(dl) } else { r.bytes(dl) };
                         if rq && cmd == 1 && dl > 0 { data[0] = r.below(5) as u8; }
                         if rq && cmd == 6 && dl > 0 { data[0] = r.below(6) as u8; }
                         let body = ctl_body(rq, false, false, inst, cmd, cc, &data);
@@ -985,7 +985,7 @@ fn c14(g: &mut Gen) {
     for n in 1..=16usize {
         for _ in 0..reps {
             let mut cfg = gen_cfg(&mut g.rng);
-            cfg.vendor_ids = (0..n).map(|_| ((g.rng.below(2)) as u8, (g.rng.next() >> 16) as u32, (g.rng.next() >> 20) as u16)).collect();
+            cfg.vendor_ids = (0..n).map(|_| ((g.rng.below(2)) as u8, g.rng.c32(), g.rng.c16())).collect();
             g.case("walk", &cfg, |s, r| {
                 // the walk a requester performs: start at 0, follow the returned selector until 0xFF
                 let mut sel = 0u8;
